@@ -10,6 +10,11 @@ LEVEL = 'other'
 READER_CLASSES = ('_AudioReadingProxy', '_Recorder', '_Limiter', '_FixedSizeAudioReader', '_OverlapAudioReader', 'AudioReader', 'Recorder')
 
 
+def bind_hop(call, fn):
+    from ..symex import bind_call
+    return bind_call(call, fn, skip_self=True).get('hop_dur')
+
+
 def find_field_by_def(cx, mod, clsname, pattern):
     """fields of a class whose (only) definitions match pattern -> list of names"""
     out = []
@@ -268,6 +273,50 @@ def check(repo, rep):
                             rep.ob('block_dur / hop_dur passed in role to the framing reader', params[i] == a[1], W(st[-1][3]), 'AudioReader.__init__:framing-arg-%s' % a[1],
                                    '%s passed as %s' % (a[1], params[i]))
     rep.floor('AudioReader.__init__ composition paths', ncomp, 4)
+    # routing: the non-overlapping reader is chosen only for hop_dur None or hop_dur == block_dur (as durations); every other
+    # hop goes to the overlap reader, the only place that rejects hop_dur > block_dur
+    ovl = cx.cls(mod, '_OverlapAudioReader', required=False)
+    for l in il:
+        if l.outcome == 'raise':
+            continue
+        st = [e for e in l.effects if e[0] == 'store' and e[1] == ('attr', ('self',), '_audio_source')]
+        if not st or st[-1][2][0] != 'call' or st[-1][2][1][0] != 'g':
+            continue
+        outer = st[-1][2]
+        lk = cx.model.lookup(outer[1])
+        takes_hop = False
+        if lk and lk[0] == 'class':
+            r = cx.model.find_method(outer[1][1], lk[1], '__init__')
+            takes_hop = bool(r) and any(a.arg == 'hop_dur' for a in r[2].args.args)
+        if takes_hop:
+            hop_arg = bind_hop(outer, r[2])
+            rep.ob('the overlap reader receives the caller\'s hop_dur unchanged', hop_arg == ('p', 'hop_dur'), W(st[-1][3]), 'AudioReader.__init__:overlap-hop-arg', 'hop passed is %s' % (show(hop_arg)[:60] if hop_arg else None))
+            continue
+        gs = [norm_cmp(c[0], c[1]) for c in l.conds]
+        is_none = any(g and g[0] == 'is' and g[1] == ('p', 'hop_dur') and g[2] == ('c', None) for g in gs)
+        is_eq = any(g and g[0] == '==' and {g[1], g[2]} == {('p', 'hop_dur'), ('p', 'block_dur')} for g in gs)
+        rep.ob('the non-overlapping reader is used only when hop_dur is None or equals block_dur (any other hop must reach the overlap reader, which rejects hop_dur > block_dur)', is_none or is_eq, W(st[-1][3]),
+               'AudioReader.__init__:routing', 'fixed-size reader chosen under %s' % [(show(c[0])[:60], c[1]) for c in l.conds if any(x == ('p', 'hop_dur') for x in walk(c[0]))],
+               sample=dict(routing='fixed', conditions=[(show(c[0])[:50], c[1]) for c in l.conds if any(x == ('p', 'hop_dur') for x in walk(c[0]))]))
+    # the wrappers and the sources below them never close themselves while being read (None on every further call)
+    from . import c11
+    sub = type(rep)(rep.prop, rep.tier, rep.repo_root, rep.level)
+    c11.check(repo, sub)
+    for o in sub.obligations:
+        if 'open state' in o['rule']:
+            rep.obligations.append(o)
+    for v in sub.violations:
+        if 'open state' in v['rule']:
+            rep.violations.append(v)
+    for cname in READER_CLASSES:
+        c = cx.cls(mod, cname, required=False)
+        if c is None:
+            continue
+        r = cx.model.find_method(mod, c, 'read')
+        if r is None or r[1] is not c:
+            continue
+        bad = [n for n in ast.walk(r[2]) if isinstance(n, ast.Call) and isinstance(n.func, ast.Attribute) and n.func.attr in ('close',)]
+        rep.ob('%s.read never closes anything: after exhaustion it returns None on every further call' % cname, not bad, W(r[2]), '%s.read:closes' % cname)
 
     # ---------------------------------------------------------------- R6 limiter
     ldefs = cx.field_defs(mod, '_Limiter')
